@@ -24,6 +24,8 @@ def main():
     rows = []
     tot = caught = 0
     for d in sorted(glob.glob(os.path.join(VERIF, 'seeded', 'C*-*')), key=key):
+        if not os.path.exists(os.path.join(d, 'meta.json')):
+            continue   # being confirmed right now
         m = json.load(open(os.path.join(d, 'meta.json')))
         if rnd and rnd not in m.get('origin', ''):
             continue
@@ -42,7 +44,7 @@ def main():
         status = m.get('status_note') or {1: 'caught', 0: 'MISSED', 2: 'inconclusive'}.get(latest, 'caught' if latest is None and first is False else str(latest))
         tot += 1
         caught += status.startswith('caught')
-        needs = m.get('needs', '').split('. ')[0][:170]
+        needs = m.get('needs', '').split('. ')[0][:170].replace('|', '\\|')
         rows.append(f"| {sid} | {', '.join(os.path.basename(f) for f in m.get('files', []))[:60]} | {needs} | "
                     f"{'missed' if first else ('caught' if first is False else '–')} | {status} |")
     print('| seed | files | needs | first run | latest |')
